@@ -145,22 +145,24 @@ Lookup(c) ==
 \*   why      "ok" = admitted, else the condition that failed (in code order)
 \*   applied  index of the authorized_keys entry in force (0: none, options = {})
 \*   o        _key_options,  cert  _cert_options (present = FALSE: None)
+\* the certificate's own conditions, judged with the authorized_keys options o in force
+\* (cert.validate(CERT_TYPE_USER, None if principals= else username), source-address)
+CertWhy(c, o) ==
+    IF c.cert.ctype # "user" THEN "cert-type"
+    ELSE IF c.cert.valid \notin {"ok", "window"} THEN "validity"
+    ELSE IF o.princ = <<>> /\ c.cert.principals # {} /\ c.user \notin c.cert.principals
+         THEN "principal"
+    ELSE IF c.cert.src # {} /\ ~ \E n \in c.cert.src : HostMatch(n, c.addr)
+         THEN "source-address"
+    ELSE "ok"
+Callback(c) == IF c.cert.present THEN c.cbca /\ c.cert.ca = "ca" ELSE c.cbkey
 Session(c) ==
     LET i == Lookup(c)
         o == IF i # 0 THEN c.entries[i] ELSE EmptyEntry
-        callback == /\ c.method = "publickey" /\ i = 0
-                    /\ IF c.cert.present THEN c.cbca /\ c.cert.ca = "ca" ELSE c.cbkey
         why == IF c.method = "password" THEN "ok"
-               ELSE IF i = 0 /\ ~callback THEN "lookup"
+               ELSE IF i = 0 /\ ~Callback(c) THEN "lookup"
                ELSE IF ~c.cert.present THEN "ok"
-               ELSE IF c.cert.ctype # "user" THEN "cert-type"
-               ELSE IF c.cert.valid \notin {"ok", "window"} THEN "validity"
-               \* cert.validate(CERT_TYPE_USER, None if principals= else username)
-               ELSE IF o.princ = <<>> /\ c.cert.principals # {} /\ c.user \notin c.cert.principals
-                    THEN "principal"
-               ELSE IF c.cert.src # {} /\ ~ \E n \in c.cert.src : HostMatch(n, c.addr)
-                    THEN "source-address"
-               ELSE "ok"
+               ELSE CertWhy(c, o)
     IN [acc |-> why = "ok", why |-> why, applied |-> i, o |-> o, cert |-> c.cert,
         cenv |-> c.cenv]
 Accepted(c) == Session(c).acc
